@@ -37,6 +37,11 @@ SETTINGS += [(lp, float("inf"), lr, 0.0, 1.0) for lp in (False, True) for lr in 
 SETTINGS += [(True, d, True, lo, hi) for d in (NAN, 0.5, float("inf")) for lo, hi in ((0.0, float("inf")), (float("-inf"), 1.0))]
 
 
+# exception classes a defuzzifier can fail with (arithmetic ones included: numpy raises them under np.errstate(all="raise"))
+FAILURES = {"RuntimeError": RuntimeError, "ValueError": ValueError, "ZeroDivisionError": ZeroDivisionError,
+            "FloatingPointError": FloatingPointError, "OverflowError": OverflowError, "TypeError": TypeError}
+
+
 class Scripted(fl.Defuzzifier):
     """Harness-side defuzzifier returning the next scripted object (or raising)."""
 
@@ -73,7 +78,7 @@ def ops_a(max_len: int):
             ops.append(("disabled", "0d", rows))
         else:
             ops.append(("defuzz", "batch", rows))
-    ops += [("fail", "RuntimeError"), ("fail", "ValueError"), ("clear",), ("clear-disabled",), ("activate",)]
+    ops += [("fail", f) for f in FAILURES] + [("clear",), ("clear-disabled",), ("activate",)]
     ops.append(("disabled", "batch", [0.25, NAN]))
     return ops
 
@@ -85,7 +90,7 @@ def ops_b(max_len: int):
             ops += [("process", "float", rows), ("process", "b1", rows), ("process-disabled", "float", rows)]
         else:
             ops.append(("process", "batch", rows))
-    ops += [("restart",), ("restart-disabled",)]
+    ops += [("restart",), ("restart-disabled",), ("restart-noblocks",)]
     return ops
 
 
@@ -113,9 +118,10 @@ def build_b(setting):
                           terms=[fl.Rectangle(f"b{k}", float(k), k + 0.5) for k in range(5)])
     ov = fl.OutputVariable("o", minimum=lo, maximum=hi, lock_range=lr, lock_previous=lp, default_value=d,
                            defuzzifier=fl.WeightedAverage(), terms=[fl.Constant(f"c{k}", consts[k]) for k in range(5)])
-    rb = fl.RuleBlock("rb", activation=fl.General(),
-                      rules=[fl.Rule.create(f"if i is b{k} then o is c{k}") for k in range(5)])
-    return fl.Engine("e", input_variables=[iv], output_variables=[ov], rule_blocks=[rb])
+    # two rule blocks: the variable is defuzzified once per process() call, after ALL blocks
+    rb1 = fl.RuleBlock("rb1", activation=fl.General(), rules=[fl.Rule.create(f"if i is b{k} then o is c{k}") for k in range(3)])
+    rb2 = fl.RuleBlock("rb2", activation=fl.General(), rules=[fl.Rule.create(f"if i is b{k} then o is c{k}") for k in range(3, 5)])
+    return fl.Engine("e", input_variables=[iv], output_variables=[ov], rule_blocks=[rb1, rb2])
 
 
 def to_inputs(rows):
@@ -144,7 +150,7 @@ def apply_a(var, model: Cascade | None, op):
             if model:
                 model.enabled = True
     elif kind == "fail":
-        var.defuzzifier.next = {"RuntimeError": RuntimeError, "ValueError": ValueError}[op[1]]("scripted failure")
+        var.defuzzifier.next = FAILURES[op[1]]("scripted failure")
         try:
             var.defuzzify()
         except Exception as ex:  # noqa: BLE001
@@ -184,10 +190,14 @@ def apply_b(engine, model: Cascade | None, op):
             ov.enabled = True
             if model:
                 model.enabled = True
-    elif kind in ("restart", "restart-disabled"):
+    elif kind in ("restart", "restart-disabled", "restart-noblocks"):
         if kind == "restart-disabled":
             ov.enabled = False
+        blocks = list(engine.rule_blocks)
+        if kind == "restart-noblocks":  # restarting an engine that has no rule blocks (yet) clears its outputs all the same
+            engine.rule_blocks = []
         engine.restart()
+        engine.rule_blocks = blocks
         ov.enabled = True
         if model:
             model.clear()
@@ -230,7 +240,7 @@ def model_states(driver: str, setting, max_len: int):
                 m.defuzzify(list(op[2]))
                 if kind == "process":
                     nf = 1
-            elif kind in ("clear", "restart", "clear-disabled", "restart-disabled"):
+            elif kind in ("clear", "restart", "clear-disabled", "restart-disabled", "restart-noblocks"):
                 m.clear()
                 nf = 0
             elif kind == "activate":
@@ -282,7 +292,7 @@ def explore(acc: Acc, driver: str, setting, max_len: int, only_history=None, par
         ok = True
         if op[0] == "fail":
             acc.cls("fault_injected")
-            if not isinstance(raised, (RuntimeError, ValueError)) or str(raised) != "scripted failure":
+            if type(raised) is not FAILURES[op[1]] or str(raised) != "scripted failure":
                 acc.violate("fault-not-propagated", {}, case, "scripted failure", repr(raised), "defuzzifier failure swallowed or replaced")
                 ok = False
             if not (rows_equal(rows, before_rows) and same(prev, before_prev)
@@ -305,7 +315,7 @@ def explore(acc: Acc, driver: str, setting, max_len: int, only_history=None, par
             ok = False
         if op[0] in ("disabled", "process-disabled"):
             acc.cls("disabled_call")
-        if op[0] in ("clear", "restart", "clear-disabled", "restart-disabled"):
+        if op[0] in ("clear", "restart", "clear-disabled", "restart-disabled", "restart-noblocks"):
             acc.cls("cleared")
         if not ok:
             return None
@@ -460,8 +470,8 @@ def summarize(tier: str, seed: int, merged: dict) -> dict:
         "rule": (
             f"BFS to closure of the reachable states of OutputVariable under {len(SETTINGS)} settings (the 12 of the statement on [0,1], an infinite default, half-open ranges); operations: defuzzify with every "
             f"batch of 1..{max_len} values over {['nan', 0.25, 0.75, 2.0, -1.0, 'inf']} (result shapes: 0-d array, numpy scalar, "
-            "1-element array, 1-D array), defuzzifier failure (2 exception classes), clear() (also while disabled), defuzzify while disabled, add "
-            "an activation; driver B: Engine.process (float / array inputs) and restart on a WeightedAverage engine. "
+            f"1-element array, 1-D array), defuzzifier failure ({len(FAILURES)} exception classes), clear() (also while disabled), defuzzify while disabled, add "
+            "an activation; driver B: Engine.process (float / array inputs) and restart (also while disabled / without rule blocks) on a WeightedAverage engine with two rule blocks. "
             "Because the search runs to closure, histories of every length are covered for batches up to the stated size. "
             "states = distinct (model, real) states; transitions = operations executed on a fresh real object after "
             "replaying the shortest history of the source state; non-trivial = the call contains a NaN row and "
